@@ -4,7 +4,8 @@
   reverts.py [ids...]     for every `fixed` entry of known_findings.json: the reverse of its commit is applied to a scratch
                           worktree of /repo HEAD (3-way merge when later commits touched the same lines), the 42 tests are
                           run (they passed before the fix, so they pass with it reverted) and the property's quick check
-                          must print VIOLATION.  Writes seeded/REVERTS.md.
+                          must print VIOLATION.  Writes seeded/REVERTS.md.  seeded/reverts/<id>.diff, when present, is the
+                          revert re-made by hand on HEAD.
 
 Scratch worktrees only; /repo itself is never touched.
 """
@@ -30,7 +31,13 @@ def reverse_patch(commit):
 
 
 def one(e):
+    hand = os.path.join(VERIF, "seeded", "reverts", e["id"] + ".diff")     # the same revert re-made on HEAD where later fixes touched the lines
     path = reverse_patch(e["commit"])
+    if os.path.exists(hand):
+        os.remove(path)
+        fd, path = tempfile.mkstemp(prefix="ptv-revert-", suffix=".diff")
+        with os.fdopen(fd, "w") as f:
+            f.write(open(hand).read())
     try:
         w = mutant.Worktree(path)
     except RuntimeError as ex:
